@@ -80,6 +80,24 @@ service!(SvcA, 1, [Ping]);
 service!(SvcB, 2, [Ping]);
 service!(SvcC, 3, [Ping, Pong]);
 
+/// A second service type that registers under SvcA's name (`service_name` overridden) and handles the other message.
+pub struct SvcA2(pub Gate);
+impl RpcService for SvcA2 {
+    fn service_name() -> &'static str {
+        SvcA::service_name()
+    }
+    fn register_handlers(registry: &mut ServiceRegistry<Self>) {
+        registry.add_handler::<Pong>();
+    }
+}
+#[datacake_rpc::async_trait]
+impl Handler<Pong> for SvcA2 {
+    type Reply = u64;
+    async fn on_message(&self, msg: Request<Pong>) -> Result<Self::Reply, Status> {
+        Ok(4 * 1_000_000 + 200_000 + msg.value % HOLD)
+    }
+}
+
 #[derive(Debug, PartialEq)]
 enum Probe {
     Served,
@@ -106,7 +124,8 @@ async fn probe_all(chan: &Channel, nonce: u64) -> Result<BTreeSet<(String, Strin
     let mut served = BTreeSet::new();
     let results = vec![
         ("A", "Ping", probe::<SvcA, Ping>(chan, Ping { value: nonce }, 1_100_000 + nonce).await),
-        ("A", "Pong", probe::<SvcA, Pong>(chan, Pong { value: nonce }, 1_200_000 + nonce).await),
+        // Pong under the name "A" is registered by SvcA2 only (SvcA implements it but never registers it)
+        ("A", "Pong", probe::<SvcA2, Pong>(chan, Pong { value: nonce }, 4_200_000 + nonce).await),
         ("B", "Ping", probe::<SvcB, Ping>(chan, Ping { value: nonce }, 2_100_000 + nonce).await),
         ("B", "Pong", probe::<SvcB, Pong>(chan, Pong { value: nonce }, 2_200_000 + nonce).await),
         ("C", "Ping", probe::<SvcC, Ping>(chan, Ping { value: nonce }, 3_100_000 + nonce).await),
@@ -213,6 +232,7 @@ async fn run_history(hi: usize, h: &Value) -> HistResult {
             ("add", "A") => server.add_service(SvcA(gate.clone())),
             ("add", "B") => server.add_service(SvcB(gate.clone())),
             ("add", "C") => server.add_service(SvcC(gate.clone())),
+            ("add", "A2") => server.add_service(SvcA2(gate.clone())),
             ("remove", s) => server.remove_service(service_name(s)),
             ("hold", s) => {
                 // a request on the SAME connection that stays inside its handler (if it is dispatched at all)
